@@ -114,6 +114,31 @@ def run(args):
                 ep["accepted"] += 1
                 compare(V, case, f, r, mj[i], ml[i], counters)
         ep["samples"] = [{"stmt": c[0], "flags": c[1]} for c in cases[:2]]
+        # the view of a statement under an option vector does not depend on which conversions ran before it in the same
+        # process: the same statements under two vectors that differ in annotations / DoV only, in both orders
+        sel = [cases[i][0] for i in idx[:16 if args.tier == "quick" else 120] if len(cases[i][0]) < 300]
+        order_a, order_b = [], []
+        for t in sel:
+            base = rng.choice(["00", "01", "10", "11"])
+            fa, fb = base + "000", base + rng.choice(["100", "010", "110"])
+            order_a += [(t, fa), (t, fb), (t, fa)]
+            order_b += [(t, fb), (t, fa), (t, fb)]
+        ra = run_pool([build.obs], [dict(vis_opts(f), mode="vis", stmt=t, id="7") for t, f in order_a], 1, timeout=120)
+        rb = run_pool([build.obs], [dict(vis_opts(f), mode="vis", stmt=t, id="7") for t, f in order_b], 1, timeout=120)
+        seen_a, seen_b = {}, {}
+        for (t, f), r in zip(order_a, ra):
+            seen_a.setdefault((t, f), []).append(r.get("out"))
+        for (t, f), r in zip(order_b, rb):
+            seen_b.setdefault((t, f), []).append(r.get("out"))
+        ep["order_pairs"] = len(sel)
+        for key in seen_a:
+            outs = seen_a[key] + seen_b.get(key, [])
+            if any(o is None for o in outs):
+                continue
+            if len(set(outs)) > 1:
+                V.violation("view:depends-on-earlier-conversion", {"stmt": key[0], "flags": key[1]},
+                            what="the visual output of a statement under one option vector differs with the conversions that ran before it in the same process")
+                break
     if counters["mism"]:
         V.broken[-1]["detail"] += " (%d disagreeing cases)" % counters["mism"]
     cov = std_coverage(po, len(meta) + ep["statements"], nontrivial,
